@@ -866,6 +866,16 @@ def run_std_real(ctx, cfg, tmp):
             ctx.oracle_fail("NestedSampler.nested_sampling_loop:resume-after-finalise",
                             f"resume from the final checkpoint: {K3} further iterations, evaluations {ev2}->{model2.likelihood_evaluations}, "
                             f"logZ {logZ2!r}->{logZ3!r}", c)
+        else:
+            # "returns the same results": EVERY entry of the result dictionary (diagnostics included), wall-clock entries apart
+            try:
+                diff = result_diff(s.get_result_dictionary(), s3.get_result_dictionary())
+            except Exception as e:  # noqa
+                diff = [f"get_result_dictionary raised {type(e).__name__}: {e}"]
+            if diff:
+                ctx.oracle_fail("NestedSampler.nested_sampling_loop:resume-after-finalise:result-dictionary",
+                                f"the result dictionary of a sampler resumed from the final checkpoint differs from the finished "
+                                f"sampler's in {diff[:6]}", c)
     # ---- model: replay the recorded trajectory
     traj = [r["cond"] for r in rec]
     mc = dict(fin=False, it=0, c0=math.inf, tol=tol, cap=cfg["cap"], nlive=3, live=[1, 2, 3], nested=[], traj=traj)
@@ -875,6 +885,39 @@ def run_std_real(ctx, cfg, tmp):
     ctx.case(("std-run", repr(cfg)), True, dict(c, iterations=K, finalised=fin1, second_call_iterations=K2, resume=res),
              kind="std-run:" + ("tol" if met else "cap"))
     return StdRig.line(mc), impl, c
+
+
+def result_diff(a, b, path=""):
+    """keys under which two result dictionaries differ (entries measured with the wall clock are skipped)"""
+    out = []
+    if isinstance(a, dict) and isinstance(b, dict):
+        for k in sorted(set(a) | set(b), key=str):
+            if "time" in str(k).lower():
+                continue
+            if k not in a or k not in b:
+                out.append(f"{path}{k}: missing on one side")
+            else:
+                out += result_diff(a[k], b[k], f"{path}{k}/")
+        return out
+    try:
+        if isinstance(a, np.ndarray) or isinstance(b, np.ndarray):
+            aa, bb = np.asarray(a), np.asarray(b)
+            if aa.dtype.names:
+                same = aa.dtype == bb.dtype and aa.shape == bb.shape and all(
+                    np.array_equal(aa[n], bb[n], equal_nan=aa[n].dtype.kind == "f") for n in aa.dtype.names)
+            else:
+                same = aa.shape == bb.shape and np.array_equal(aa, bb, equal_nan=aa.dtype.kind == "f")
+        elif isinstance(a, float) and isinstance(b, float) and math.isnan(a) and math.isnan(b):
+            same = True
+        elif isinstance(a, (list, tuple)) and isinstance(b, (list, tuple)) and len(a) == len(b):
+            return [d for i, (x, y) in enumerate(zip(a, b)) for d in result_diff(x, y, f"{path}{i}/")]
+        else:
+            same = type(a) is type(b) and a == b
+            if not isinstance(same, bool):
+                same = bool(np.all(same))
+    except Exception:  # noqa
+        same = False
+    return [] if same else [f"{path.rstrip('/')}: {str(a)[:40]!r} -> {str(b)[:40]!r}"]
 
 
 def _pick(out, keys):
